@@ -385,6 +385,7 @@ func c06(r *hx.Run) {
 		}
 	}
 	c06DefaultTime(r)
+	c06Reissue(r)
 	r.Note("grid", fmt.Sprintf("%d artifacts (+ second-intermediate-in-pool) x %d repetitions; %d random worlds x %d assignments; Now=nil around the wall clock", len(c06Arts), reps, randWorlds, perWorld))
 }
 
@@ -450,5 +451,49 @@ func c06DefaultTime(r *hx.Run) {
 			obs, fail = "time-fixed", "options converted from a root-of-trust configuration carry a time set fixed at conversion ("+o.Now.PckCertChain.UTC().Format(time.RFC3339)+"): every later verification is judged at that moment instead of at the time of the call"
 		}
 		r.Emit(fmt.Sprintf("# C06.rot-time cfg=%d", i), obs, fail, fmt.Sprintf("rot-time|%d", i), true, "probe:root-of-trust-options-carry-no-time")
+	}
+}
+
+
+// c06Reissue: what was valid in an EARLIER verification does not vouch for what a later quote carries.  An honest world is
+// verified; then a quote of the same PKI (same keys and names) whose carried intermediate / leaf is a re-issued certificate
+// that is not yet valid (or already expired) at the verification time.  The second quote is judged on its own.
+func c06Reissue(r *hx.Run) {
+	n := 6
+	if r.Tier == "thorough" {
+		n = 60
+	}
+	for i := 0; i < n; i++ {
+		rng := c05CaseRng(r, 0x66, i)
+		s1 := honestSpec(rng)
+		s1.GC, s1.CR = i%3 >= 1, i%3 == 2
+		w1 := world.Build(s1)
+		w1.Spec.Fault = "reissue:first(honest)"
+		vr1 := runVerify(w1)
+		c05Emit(r, w1, vr1, time.Now(), map[bool]string{true: "", false: "generator: honest first world rejected: " + fmt.Sprint(vr1.err)}[vr1.accepted], "probe:reissue", "step:1")
+		s2 := *s1
+		s2.Certs = nil
+		for _, c := range s1.Certs {
+			cc := *c
+			s2.Certs = append(s2.Certs, &cc)
+		}
+		role := []string{"inter", "leaf", "inter"}[i%3]
+		c := s2.Cert(role)
+		c.Serial = new(big.Int).Add(c.Serial, big.NewInt(7000))
+		kind := "not-yet-valid"
+		if i%2 == 0 {
+			c.NotBefore = s2.Now[0].Add(time.Hour)
+		} else {
+			c.NotAfter, kind = s2.Now[0].Add(-time.Hour), "expired"
+		}
+		s2.Honest = false
+		s2.Fault = "reissue:second(" + role + "-reissued-" + kind + ")"
+		w2 := world.Build(&s2)
+		vr2 := runVerify(w2)
+		fail := ""
+		if vr2.accepted {
+			fail = fmt.Sprintf("accepted although the %s certificate the quote carries is %s at Now.PckCertChain; an honest quote of the same PKI (same CA key and name, valid certificate) was verified earlier in this process", role, kind)
+		}
+		c05Emit(r, w2, vr2, time.Now(), fail, "probe:reissue", "step:2", "reissued:"+role+"-"+kind)
 	}
 }
